@@ -1231,8 +1231,15 @@ udp_timer_cb(void *arg)
 		if (p->dialer && now > p->next_creq) {
 			udp_send_creq(ep, p);
 		}
-		if (p->next_wake < ep->next_wake) {
+		// Wake up for the next thing to do on this pipe, and in any
+		// case when it expires.  A wake time that has passed (it is not
+		// advanced for listener pipes) must not be used: the sleep
+		// would be zero or negative, and -1 means sleep forever.
+		if ((p->next_wake >= now) && (p->next_wake < ep->next_wake)) {
 			ep->next_wake = p->next_wake;
+		}
+		if (p->expire < ep->next_wake) {
+			ep->next_wake = p->expire;
 		}
 	}
 	refresh = ep->next_wake == NNI_TIME_NEVER
